@@ -754,50 +754,7 @@ func runC07(c *Ctx) {
 	}
 
 	c.rule("C07-R11", "def-use: in Interpreter.ApplyTypeDefaults every value written into the result object that is not copied from the request's own object is the result of evaluating the field's default expression in this call (EvaluateExpression), never a value kept from an earlier request: a default such as `tags: [str] = [\"new\"]` must be a new array for every request, or one request's in-place edits become the next request's 'default'")
-	if ad := c.mustFn("C07-R11", interpPkg, "Interpreter.ApplyTypeDefaults"); ad != nil {
-		n := 0
-		eachInstr(ad, func(_ *ssa.BasicBlock, _ int, ins ssa.Instruction) {
-			mu, ok := ins.(*ssa.MapUpdate)
-			if !ok {
-				return
-			}
-			n++
-			var ok2 func(v ssa.Value, d int) bool
-			ok2 = func(v ssa.Value, d int) bool {
-				if d > 8 {
-					return false
-				}
-				switch x := v.(type) {
-				case *ssa.Extract:
-					if call, isC := x.Tuple.(*ssa.Call); isC {
-						return callName(call) == interpPath+".Interpreter.EvaluateExpression"
-					}
-					if nx, isN := x.Tuple.(*ssa.Next); isN {
-						return !nx.IsString // copying the request's own object (range over the parameter map)
-					}
-					if lk, isL := x.Tuple.(*ssa.Lookup); isL {
-						return lk.X == ssa.Value(ad.Params[1])
-					}
-				case *ssa.Lookup:
-					return x.X == ssa.Value(ad.Params[1])
-				case *ssa.Phi:
-					for _, e := range x.Edges {
-						if !ok2(e, d+1) {
-							return false
-						}
-					}
-					return true
-				case *ssa.Call:
-					return callName(x) == interpPath+".Interpreter.EvaluateExpression"
-				}
-				return false
-			}
-			c.ob("C07-R11", fnKey(ad)+"#default-evaluated-for-this-request-"+itoa(n), mu.Pos(), ok2(mu.Value, 0), "a field of the validated input is filled with a value that is neither the request's own nor a default evaluated in this call (a cached/shared value): array and object defaults are then one Go value shared by all requests")
-		})
-		if n < 2 {
-			c.undecided("C07-R11: ApplyTypeDefaults has %d writes into its result, expected >= 2", n)
-		}
-	}
+	freshDefaultsRule(c, "C07-R11")
 
 	c.rule("C07-R8", "WCS: the compiled request path (closure + cmd/glyph helpers) keeps no package-level sync.Once / Pool state and writes no package variable: the type checker used for validation is built from the current compiledTypeDefs on every request (a cached one survives `glyph dev` reloads and validates against stale nested types)")
 	compiledPathGlobalState(c, "C07-R8")
@@ -942,4 +899,52 @@ func bodyArgOf(call *ssa.Call) ssa.Value {
 		}
 	}
 	return nil
+}
+
+// freshDefaultsRule: see C07-R11 (also evaluated as C08-R10: a default shared between requests is shared mutable state).
+func freshDefaultsRule(c *Ctx, rule string) {
+	if ad := c.mustFn(rule, interpPkg, "Interpreter.ApplyTypeDefaults"); ad != nil {
+		n := 0
+		eachInstr(ad, func(_ *ssa.BasicBlock, _ int, ins ssa.Instruction) {
+			mu, ok := ins.(*ssa.MapUpdate)
+			if !ok {
+				return
+			}
+			n++
+			var ok2 func(v ssa.Value, d int) bool
+			ok2 = func(v ssa.Value, d int) bool {
+				if d > 8 {
+					return false
+				}
+				switch x := v.(type) {
+				case *ssa.Extract:
+					if call, isC := x.Tuple.(*ssa.Call); isC {
+						return callName(call) == interpPath+".Interpreter.EvaluateExpression"
+					}
+					if nx, isN := x.Tuple.(*ssa.Next); isN {
+						return !nx.IsString // copying the request's own object (range over the parameter map)
+					}
+					if lk, isL := x.Tuple.(*ssa.Lookup); isL {
+						return lk.X == ssa.Value(ad.Params[1])
+					}
+				case *ssa.Lookup:
+					return x.X == ssa.Value(ad.Params[1])
+				case *ssa.Phi:
+					for _, e := range x.Edges {
+						if !ok2(e, d+1) {
+							return false
+						}
+					}
+					return true
+				case *ssa.Call:
+					return callName(x) == interpPath+".Interpreter.EvaluateExpression"
+				}
+				return false
+			}
+			c.ob(rule, fnKey(ad)+"#default-evaluated-for-this-request-"+itoa(n), mu.Pos(), ok2(mu.Value, 0), "a field of the validated input is filled with a value that is neither the request's own nor a default evaluated in this call (a cached/shared value): array and object defaults are then one Go value shared by all requests")
+		})
+		if n < 2 {
+			c.undecided(rule+": ApplyTypeDefaults has %d writes into its result, expected >= 2", n)
+		}
+	}
 }
